@@ -72,25 +72,33 @@ func idsOf(c ast.SetCursor) []string {
 	return out
 }
 
+const c15SibCases = 24
+
 func init() {
 	core.Register(&core.Property{
 		ID:    "C15",
 		Level: "exploration",
 		Rule: "random histories issuing create/update/patch/delete through the parent store (emps), a plain child store (emps/ext) and an extended child store (emps/xt) over mixed populations; " +
 			"after every transaction: FindById/LoadById visibility and shared fields through each store, child data presence, parent unique/set/fk indexes (structural monitor), QueryIds/IterateIds/IterateValidIds through each store vs the model, " +
-			"a whole-file scan for the id after deletes through either store, and an entity constraint on the parent store that must be handed the pre-transaction state for updates of plain and child entities alike; part (b): a delete refused by a constraint of the child store (veto constraint, fk restrict from a store referencing the child store) must fail and change nothing whether issued through the parent or the child store, and remove both parts once the blocker is gone. non-trivial = distinct (op kind, store routed through, entity child kind, outcome, configuration) tuples",
+			"a whole-file scan for the id after deletes through either store, and an entity constraint on the parent store that must be handed the pre-transaction state for updates of plain and child entities alike; part (c): one parent with two sibling child stores, the second plain or extended and owning a link collection of its own: every existing entity - with data in neither, one or both child stores - can be deleted through the parent store, errors change nothing; part (b): a delete refused by a constraint of the child store (veto constraint, fk restrict from a store referencing the child store) must fail and change nothing whether issued through the parent or the child store, and remove both parts once the blocker is gone. non-trivial = distinct (op kind, store routed through, entity child kind, outcome, configuration) tuples",
 		Assumptions: []string{"a create through a child store over an entity without data in that store is read as: the entity then exists in both, its shared fields are the payload's, validated like an update (what the repaired code does); deleting a plain parent through the non-extended child store is not generated (undefined by the statement)",
 			"the harness update mapper copies the caller's shared fields onto the loaded child entity (what an application mapper must do)"},
 		Plan: func(tier core.Tier, seed int64) int {
 			if tier == core.Thorough {
-				return 60000 + c15VetoCases
+				return 60000 + c15VetoCases + c15SibCases*4
 			}
-			return 600 + c15VetoCases
+			return 600 + c15VetoCases + c15SibCases
 		},
 		Run: func(c *core.Ctx, idx int) {
 			nHist := 600
 			if c.Tier == core.Thorough {
 				nHist = 60000
+			}
+			if idx >= nHist+c15VetoCases {
+				// a parent with two sibling child stores, the second (plain or extended) with a link collection of its own:
+				// every existing entity, with or without data in either child store, can be deleted through the parent
+				siblingScenario(c, idx-nHist-c15VetoCases, "C15")
+				return
 			}
 			if idx >= nHist {
 				c15VetoCase(c, idx-nHist)
